@@ -66,7 +66,7 @@ def _run_one(args):
         ctx.errors)[:200]
 
 
-def selftest(pid, ctx=None, jobs=None):
+def selftest(pid, ctx=None, jobs=None, consulted=None):
     todo = [(m, pid) for m in MUTANTS if pid in m['props']]
     out = dict(mutants=len(todo), reported=0, skipped=0, missed=[])
     if not todo:
@@ -83,6 +83,117 @@ def selftest(pid, ctx=None, jobs=None):
     if ctx is not None and out['missed']:
         ctx.note('self-test', 'mutants not reported: %s' % '; '.join(
             out['missed']))
+    try:
+        out['corpus'] = corpus(pid, consulted=consulted)
+        if ctx is not None and (out['corpus']['seeded_missed']
+                                or out['corpus']['benign_alarm']):
+            ctx.note('self-test', 'corpus: seeded changes not reported: %s; '
+                     'refactorings not silent: %s' % (
+                         ', '.join(out['corpus']['seeded_missed']) or '-',
+                         ', '.join(out['corpus']['benign_alarm']) or '-'))
+    except Exception as e:
+        out['corpus'] = dict(error='%s: %s' % (type(e).__name__, e))
+    return out
+
+
+# -- corpus regression (patches kept under /verif/seeded and /verif/benign) --
+def _patched_sources(patch, base_sources):
+    """Apply a unified diff in a temporary directory outside /repo and
+    /verif (removed at once) -> {relpath: text} or None."""
+    import re
+    import shutil
+    import subprocess
+    import tempfile
+    with open(patch) as f:
+        text = f.read()
+    files = sorted(set(re.findall(r'^\+\+\+ b/(\S+)', text, re.M)))
+    tmp = tempfile.mkdtemp(prefix='chk-', dir='/dev/shm' if os.path.isdir(
+        '/dev/shm') else None)
+    try:
+        for rel in files:
+            src = os.path.join(loader.REPO, rel)
+            dst = os.path.join(tmp, rel)
+            os.makedirs(os.path.dirname(dst), exist_ok=True)
+            if os.path.exists(src):
+                shutil.copy(src, dst)
+        r = subprocess.run(['patch', '-p1', '-s', '-i',
+                            os.path.abspath(patch)], cwd=tmp,
+                           capture_output=True, text=True)
+        if r.returncode != 0:
+            return None
+        out = {}
+        for rel in files:
+            if rel.endswith(('.py', '.xml')) and rel.startswith('chi/') \
+                    and 'tests' not in rel:
+                with open(os.path.join(tmp, rel)) as f:
+                    out[rel] = f.read()
+        return out
+    finally:
+        shutil.rmtree(tmp, ignore_errors=True)
+
+
+def _run_patch(args):
+    patch, pid = args
+    from . import run as runner
+    ov = _patched_sources(patch, None)
+    if ov is None:
+        return patch, 'skipped'
+    try:
+        repo = loader.Repo(overrides=ov)
+    except loader.AnalysisError:
+        return patch, 'skipped'
+    rc, ev, ctx = runner.run_property(pid, 'quick', repo=repo, write=False,
+                                      quiet=True, selftest=False)
+    return patch, {0: 'silent', 1: 'reported', 2: 'error'}.get(rc, 'error')
+
+
+def corpus(pid, jobs=None, consulted=None):
+    """Seeded changes of this property must be reported, kept refactorings
+    must leave the check silent.  Patches that no longer apply are skipped.
+    Outcome is evidence about the machinery, never a verdict on /repo."""
+    import glob
+    import json
+    here = os.path.dirname(os.path.dirname(os.path.abspath(__file__)))
+    seeds = sorted(glob.glob(os.path.join(here, 'seeded', pid + '-*',
+                                          'patch.diff')))
+    benign = []
+    for d in sorted(glob.glob(os.path.join(here, 'benign', '*'))):
+        p = os.path.join(d, 'patch.diff')
+        if not os.path.exists(p):
+            continue
+        if consulted is not None:
+            # a refactoring of files this property's rules never read
+            # cannot change their verdict
+            try:
+                with open(os.path.join(d, 'meta.json')) as f:
+                    files = set(json.load(f).get('files', []))
+            except (OSError, ValueError):
+                files = set()
+            if files and not (files & set(consulted)):
+                continue
+        benign.append(p)
+    out = dict(seeded=len(seeds), seeded_reported=0, seeded_missed=[],
+               benign=len(benign), benign_silent=0, benign_alarm=[],
+               skipped=0)
+    todo = [(p, pid) for p in seeds + benign]
+    if not todo:
+        return out
+    jobs = jobs or min(16, os.cpu_count() or 4, len(todo))
+    with ProcessPoolExecutor(max_workers=jobs) as ex:
+        for patch, st in ex.map(_run_patch, todo):
+            name = os.path.basename(os.path.dirname(patch))
+            if st == 'skipped':
+                out['skipped'] += 1
+            elif patch in seeds:
+                if st == 'reported':
+                    out['seeded_reported'] += 1
+                else:
+                    out['seeded_missed'].append('%s (%s)' % (name, st))
+            else:
+                if st == 'silent':
+                    out['benign_silent'] += 1
+                else:
+                    out['benign_alarm'].append('%s (%s)' % (name, st))
     return out
 
 
